@@ -8,7 +8,7 @@ import time
 from mammoth import options as moptions
 from mammoth.styles.parser import read_style_mapping, tokeniser
 
-from .. import common, gen_styles as G, terms as T
+from .. import apilevel as A, common, gen_styles as G, terms as T
 
 HEADER = """From Mammoth Require Import Options DefaultStyleMap.
 Local Open Scope N_scope.
@@ -29,7 +29,7 @@ Definition chk_line (c : str * option (list token) * option (option style)) : bo
   end.
 (* (text, observed (styles, messages) or crash) *)
 Definition chk_map (c : str * option (list style * list str)) : bool :=
-  match read_options_style_map (fst c) [] true, snd c with
+  match read_options_style_map (fst c) [] false, snd c with
   | Ok (ss, ms), Some (ss', ms') => list_eqb style_eqb ss ss' && list_eqb str_eqb ms ms'
   | Crash _, None => true
   | _, _ => false
@@ -69,7 +69,11 @@ def observe_map(text):
         r = moptions.read_options({"style_map": text})
         styles = r.value["style_map"]
         msgs = [m.message for m in r.messages]
-        term = "(%s, Some (%s, %s))" % (T.s(text), T.lst(T.style, styles), T.lst(T.s, msgs))
+        nd = len(moptions._default_style_map)
+        if styles[len(styles) - nd:] != moptions._default_style_map:
+            raise AssertionError("the defaults are not at the end of the style map")
+        # the defaults (compared by Props/C03 and C08) are left out of the term: only the explicit part is evaluated here
+        term = "(%s, Some (%s, %s))" % (T.s(text), T.lst(T.style, styles[:len(styles) - nd]), T.lst(T.s, msgs))
         return term, (styles, r.messages)
     except Exception as e:
         return "(%s, None)" % T.s(text), e
@@ -170,29 +174,9 @@ def run(ctx):
         for m in (1, 2, 3, 7, 12):
             lines += [l for l in f(m).split("\n")][:2]
     lines = [l for l in lines if "\n" not in l]
-    lterms, dist = [], {"lines": 0, "parsed": 0, "rejected": 0, "token_types": {}}
-    for l in lines:
-        term, toks, res = observe_line(l)
-        lterms.append(term)
-        ctx.count()
-        dist["lines"] += 1
-        if isinstance(res, Exception):
-            ctx.violation("oracle", "read_style_mapping raised %s" % type(res).__name__,
-                          {"api": "read_style_mapping", "line": l}, True)
-        elif res.value is None:
-            dist["rejected"] += 1
-        else:
-            dist["parsed"] += 1
-            ctx.nontrivial("ok:" + l)
-        if toks:
-            for t in toks:
-                dist["token_types"][t.type] = dist["token_types"].get(t.type, 0) + 1
-    for i in ctx.coq_eval("c07l", HEADER, lterms, "str * option (list token) * option (option style)", "chk_line")[:5]:
-        ctx.violation("correspondence", "model and implementation disagree on a style-map line",
-                      {"obligation": "correspondence Model/StyleParser.v vs tokenise/read_style_mapping", "line": lines[i]}, False)
     # whole style maps
     texts = ["", "\n\n", "# only a comment", "p => h1\n\n#c\nq q\nq q\nr => em\n  \t p.a => h2  ", "\r\n p => h1 \r\n",
-             "p:ordered-list(" + "9" * 5000 + ") => p", "p:ordered-list(" + "9" * 4300 + ") => p", "x\nx\ny\nx"]
+             "p:ordered-list(" + "9" * 5000 + ") => p", "p:ordered-list(" + "9" * (4300 if ctx.thorough else 300) + ") => p", "x\nx\ny\nx"]
     for i in range(1500 if ctx.thorough else 250):
         ls = []
         for _ in range(rng.randint(0, 6)):
@@ -200,24 +184,75 @@ def run(ctx):
             ls.append(G.rand_mapping_text(rng) if k < 0.5 else G.token_soup(rng) if k < 0.7 else
                       rng.choice(["", "  ", "# c", " #x", "p => h1", "!!", "!!"]) if k < 0.9 else G.rand_codepoints(rng))
         texts.append(rng.choice(["\n", "\n", "\r\n", "\n\n"]).join(ls))
-    mterms = []
-    for t in texts:
-        term, res = observe_map(t)
-        mterms.append(term)
-        ctx.count()
-        bad = oracle_map(t, res)
-        if bad:
-            ctx.violation("oracle", bad, {"api": "options.read_options", "style_map": t if len(t) < 300 else t[:100] + "...",
-                                          "style_map_len": len(t),
-                                          "generator": "p:ordered-list(9*N) => p" if len(t) > 4000 else None}, True)
-        elif not isinstance(res, Exception) and res[1]:
-            ctx.nontrivial("warn:" + t[:80])
-            ctx.sample({"style_map": t[:200], "messages": [m.message for m in res[1]][:3]})
+    # the timing ladder first: when a pumped family already hangs there is no point in stressing the rest in this process
+    timing_ladder(ctx)
+    # the implementation runs in a child process, so that a hang can be killed and the culprit named
+    lterms, mterms, dist = [], [], {"lines": 0, "parsed": 0, "rejected": 0, "token_types": {}}
+    budget = 900 if ctx.thorough else 150
+    with A.Workdir() as wd:
+        inf, outf = os.path.join(wd.path, "job.json"), os.path.join(wd.path, "out.jsonl")
+        with open(inf, "w", encoding="utf-8") as f:
+            json.dump({"lines": lines, "texts": texts}, f)
+        p = subprocess.Popen([common.PY, "-m", "harness.c07_worker", inf, outf], cwd=common.VERIF, env=common.ENV,
+                             stdout=subprocess.PIPE, stderr=subprocess.STDOUT, text=True)
+        try:
+            wout, _ = p.communicate(timeout=budget)
+            hung = False
+        except subprocess.TimeoutExpired:
+            p.kill()
+            wout, _ = p.communicate()
+            hung = True
+        rows = []
+        if os.path.exists(outf):
+            with open(outf, encoding="utf-8") as f:
+                rows = [json.loads(x) for x in f if x.strip()]
+    done = any(r.get("done") for r in rows)
+    last_start = None
+    kept_lines, kept_texts = [], []
+    for r in rows:
+        if "start" in r:
+            last_start = r["start"]
+        elif r.get("kind") == "line":
+            l = lines[r["i"]]
+            lterms.append(r["term"])
+            kept_lines.append(l)
+            ctx.count()
+            dist["lines"] += 1
+            if "exc" in r:
+                ctx.violation("oracle", "read_style_mapping raised %s" % r["exc"], {"api": "read_style_mapping", "line": l}, True)
+            elif r["parsed"]:
+                dist["parsed"] += 1
+                ctx.nontrivial("ok:" + l)
+            else:
+                dist["rejected"] += 1
+            for ty in r["types"]:
+                dist["token_types"][ty] = dist["token_types"].get(ty, 0) + 1
+        elif r.get("kind") == "text":
+            tx = texts[r["i"]]
+            mterms.append(r["term"])
+            kept_texts.append(tx)
+            ctx.count()
+            if r["bad"]:
+                ctx.violation("oracle", r["bad"], {"api": "options.read_options", "style_map": tx if len(tx) < 300 else tx[:100] + "...",
+                                                   "style_map_len": len(tx), "generator": "p:ordered-list(9*N) => p" if len(tx) > 4000 else None}, True)
+            elif r.get("msgs"):
+                ctx.nontrivial("warn:" + tx[:80])
+                ctx.sample({"style_map": tx[:200], "messages": r["msgs"]})
+    if not done:
+        if hung and last_start is not None:
+            culprit = lines[last_start[1]] if last_start[0] == "line" else texts[last_start[1]]
+            ctx.violation("oracle", "reading this style map did not finish within %d s (hang / super-polynomial time)" % budget,
+                          {"api": "read_style_mapping" if last_start[0] == "line" else "options.read_options", "style_map": culprit[:400],
+                           "style_map_len": len(culprit)}, True)
+        else:
+            ctx.violation("correspondence", "the implementation worker died: %s" % (wout or "")[-300:], {"obligation": "harness/c07_worker"}, False)
+    for i in ctx.coq_eval("c07l", HEADER, lterms, "str * option (list token) * option (option style)", "chk_line")[:5]:
+        ctx.violation("correspondence", "model and implementation disagree on a style-map line",
+                      {"obligation": "correspondence Model/StyleParser.v vs tokenise/read_style_mapping", "line": kept_lines[i]}, False)
     for i in ctx.coq_eval("c07m", HEADER, mterms, "str * option (list style * list str)", "chk_map", shard=60)[:5]:
         ctx.violation("correspondence", "model and implementation disagree on a style map",
                       {"obligation": "correspondence Model/Options.v:read_options_style_map vs options.read_options",
-                       "style_map": texts[i][:300]}, False)
-    timing_ladder(ctx)
+                       "style_map": kept_texts[i][:300]}, False)
     ctx.coverage["traces_validated_against_impl"] = len(lterms) + len(mterms)
     ctx.coverage["input_distribution"] = dist
     ctx.coverage["rule"] = ("style-map lines: printed random mappings (hostile identifiers/strings), mutations, token soups, random code points, "
